@@ -26,7 +26,7 @@ ASSUMPTIONS = [
     "a payload named for single extraction without an output file is removed at the user's request (not 'lost')",
     "missing payload name together with --output-payload-file is outside the input domain (F8-iv)",
 ]
-PL_NAMES = ["#a", "#ab", "#b", "a.bin", "#file", "x"]
+PL_NAMES = ["#a", "#ab", "#b", "a.bin", "#file", "x", "3", "2024", "007"]
 DEP_NAMES = ["#app.suit", "#rad.suit", "#dep", "#a.suit"]
 
 
